@@ -18,6 +18,9 @@
 //	Walk WalkClass WalkPartial            Do: succeeds | ErrCancel | user error | panic, at the first entry with a
 //	WalkPartialClass                        given value; windows 0,1,len-1,len,len+1,2^62,2^63-1 (window) and
 //	                                        >= 2^63 (overflow, models only); undecodable value midway (classvalue)
+//	a walk that ends early                earlystop: every walk kind x {Do cancels, fails, panics, a value does not
+//	                                        decode} x stop at an earlier / later entry, then every writer kind on
+//	                                        the same store (what the walk held must be gone: "busy" is never accepted)
 //	Create CreateMissing Destroy          multi: per handle and through Tables; every method before Create and
 //	                                        after Destroy (must report an error), Create on an existing table,
 //	                                        CreateMissing on an existing table (must keep it), Destroy+Create
@@ -54,7 +57,8 @@
 //	                                        its doublings by SetBytes / AppendBytes / incr carry (sizes)
 //	SQL table (k unique, c, v)            on disk per (file, table name); shared by all handles of that name;
 //	                                        value typed BLOB by a bound []byte, TEXT by the || of an append (typing)
-//	sqlx.DB pool                          one per file, reused by all handles and histories of the run; a
+//	sqlx.DB pool                          one per file, reused by all handles and histories of the run (a store
+//	                                        set-up that fails is an observation about the history before); a
 //	                                        Mutate that fails / cancels / panics must leave no transaction behind
 //	                                        (later calls would hang or fail: per-call time limit, "hang")
 //	Tables.tables                         registration order = order of Create / Destroy (lifecycle)
@@ -132,6 +136,7 @@ type Case struct {
 	Stream  string            `json:"stream"`
 	Handles []Handle          `json:"handles,omitempty"` // multi-handle histories (Obs keys "m", "s")
 	Multi   bool              `json:"multi,omitempty"`
+	Setup   string            `json:"setup_err,omitempty"` // setting up a sqlite store for THIS history failed (see stores.fresh)
 	Ops     []Op              `json:"ops"`
 	HK      map[string]string `json:"hk"` // hex key -> hex of the hashed key (unordered stores)
 	Obs     map[string][]Res  `json:"obs"`
@@ -211,6 +216,13 @@ func project(err error) (string, string) {
 		return "exists", ""
 	case strings.Contains(msg, "UNIQUE constraint failed"):
 		return "exists", ""
+	case strings.Contains(msg, "SQLITE_BUSY") || strings.Contains(msg, "database is locked") ||
+		strings.Contains(msg, "SQLITE_LOCKED") || strings.Contains(msg, "database table is locked"):
+		// nothing else is in progress in these histories: never a legitimate answer here
+		if len(msg) > 160 {
+			msg = msg[:160]
+		}
+		return "busy", msg
 	case strings.HasSuffix(msg, "too long"):
 		return "key_too_long", ""
 	case errors.As(err, &se), strings.Contains(msg, "unexpected end of JSON input"):
@@ -496,10 +508,11 @@ func applyTimed(kv *pisces.KV, op *Op, sc *scratch, dead *bool) Res {
 // ---- stores ----
 
 type stores struct {
-	db     *sqlx.DB
-	dir    string
-	gen    int
-	multiN int
+	db       *sqlx.DB
+	dir      string
+	gen      int
+	multiN   int
+	setupErr string // the set-up of a sqlite store failed: what the history before left behind
 }
 
 func openStores() *stores {
@@ -523,6 +536,18 @@ func (s *stores) close() {
 	os.RemoveAll(s.dir)
 }
 
+// renew abandons the pool (a connection of it may be stuck) and opens a new
+// database file.
+func (s *stores) renew() {
+	go s.db.Close()
+	s.gen++
+	db, err := sqlx.OpenSqlite3(filepath.Join(s.dir, fmt.Sprintf("db%d", s.gen)))
+	if err != nil {
+		panic(err)
+	}
+	s.db = db
+}
+
 var storeNames = []string{"mo", "mu", "so", "su"}
 
 func (s *stores) fresh(name string) *pisces.KV {
@@ -533,11 +558,23 @@ func (s *stores) fresh(name string) *pisces.KV {
 	case "mu":
 		return pisces.NewMemKV()
 	}
-	if err := pisces.Sqlite3DropExist(s.db, table); err != nil {
-		panic(err)
+	// A failure here is an observation about the history before: it left
+	// the database in a state in which a table cannot be dropped or created
+	// (a lock, an open transaction). Recorded, and the run goes on with a new
+	// file and a new pool.
+	setup := func() error {
+		if err := pisces.Sqlite3DropExist(s.db, table); err != nil {
+			return err
+		}
+		return pisces.Sqlite3CreateKV(s.db, table)
 	}
-	if err := pisces.Sqlite3CreateKV(s.db, table); err != nil {
-		panic(err)
+	if err := setup(); err != nil {
+		e, msg := project(err)
+		s.setupErr = e + ": " + msg
+		s.renew()
+		if err := setup(); err != nil {
+			panic(err) // a new file refuses its first table: not the code under test
+		}
 	}
 	if name == "so" {
 		return pisces.NewOrderedSqlite3KV(s.db, table)
@@ -558,13 +595,7 @@ func (s *stores) run(name string, ops []Op) []Res {
 	}
 	if dead && name[0] == 's' {
 		// a connection may be stuck inside a transaction: new pool, new file
-		s.db.Close()
-		s.gen++
-		db, err := sqlx.OpenSqlite3(filepath.Join(s.dir, fmt.Sprintf("db%d", s.gen)))
-		if err != nil {
-			panic(err)
-		}
-		s.db = db
+		s.renew()
 	}
 	return out
 }
@@ -1061,6 +1092,46 @@ func callbackCorpus() [][]Op {
 	return out
 }
 
+// earlyStopCorpus: a walk of every kind that ends before the rows are
+// exhausted, for every reason there is (Do cancels, fails, panics; a value
+// does not decode) and at the first or a later entry - and then every kind of
+// writer on the same store. Whatever a walk holds while it runs (the read
+// lock, a result set and its connection) must be gone when it returns.
+func earlyStopCorpus() [][]Op {
+	setup := []Op{{Op: "add", K: h("a"), V: h("1")}, {Op: "addclass", K: h("b"), C: h("c"), V: h("7")},
+		{Op: "addclass", K: h("c"), C: h("c"), V: h("3")}, {Op: "add", K: h("d"), V: h("4")}}
+	writers := func() []Op {
+		return []Op{{Op: "add", K: h("n"), V: h("1")}, {Op: "set", K: h("a"), V: h("2")}, {Op: "setbytes", K: h("d"), V: h("5")},
+			{Op: "setclass", K: h("a"), C: h("x")}, {Op: "emplace", K: h("e"), V: h("6")}, {Op: "replace", K: h("d"), V: h("8")},
+			{Op: "append", K: h("d"), V: h("9")}, {Op: "mutate", K: h("a"), M: "incr"}, {Op: "mutate", K: h("d"), M: "ok", V: h("0")},
+			{Op: "remove", K: h("n")}, {Op: "count"}, {Op: "walk"}, {Op: "clear"}, {Op: "count"}, {Op: "add", K: h("a"), V: h("1")},
+			{Op: "get", K: h("a")}}
+	}
+	walks := []Op{{Op: "walk"}, {Op: "walkclass", C: h("c")}, {Op: "walkpartial", Off: 0, N: 9}, {Op: "walkpartial", Off: 1, N: 2, Desc: true},
+		{Op: "walkpartialclass", C: h("c"), Off: 0, N: 9, Desc: true}}
+	var out [][]Op
+	for _, w := range walks {
+		for _, reason := range []string{"cancel", "user", "panic", "decode"} {
+			for _, at := range []string{"7", "3"} { // entries b and c: each walk above meets one of them first, the other later
+				ops := append([]Op{}, setup...)
+				o := w
+				if reason == "decode" {
+					// the entry stops being JSON: the wrapper's own decoding ends the walk
+					key := map[string]string{"7": "b", "3": "c"}[at]
+					ops = append(ops, Op{Op: "setbytes", K: h(key), V: h("{")})
+				} else {
+					o.Stop = strp(h(at))
+					o.StopErr = reason
+				}
+				ops = append(ops, o)
+				ops = append(ops, writers()...)
+				out = append(out, ops)
+			}
+		}
+	}
+	return out
+}
+
 // ---- multi-handle histories ----
 
 type multiCase struct {
@@ -1269,6 +1340,7 @@ func main() {
 	i := 0
 	emit := func(stream string, ops []Op) {
 		c := Case{I: i, Stream: stream, Ops: ops, HK: hashTable(ops), Obs: st.runAll(ops)}
+		c.Setup, st.setupErr = st.setupErr, ""
 		if stream != "overflow" && hangs == 0 && (!sameRes(c.Obs["mo"], c.Obs["so"]) || !sameRes(c.Obs["mu"], c.Obs["su"])) {
 			c.Min = st.shrink(ops)
 			c.MinObs = st.runAll(c.Min)
@@ -1290,6 +1362,9 @@ func main() {
 	}
 	for _, ops := range callbackCorpus() {
 		emit("callbacks", ops)
+	}
+	for _, ops := range earlyStopCorpus() {
+		emit("earlystop", ops)
 	}
 	for _, ops := range typingCorpus() {
 		emit("typing", ops)
